@@ -59,10 +59,10 @@ def _spec(module):
                       lambda units, R: own.own4_dangling(units, R, unit_names=('cJSON.c',)), parse.tab17],
         }]
     if module == 'tables':
-        from . import parse
+        from . import parse, codeset
         return [{
             'units': {'cJSON.c': 'tables_bad.c', 'cJSON_Utils.c': 'utils_min.c'},
-            'rules': [parse.tab4, parse.tab5a, parse.tab6, parse.tab7, parse.c02_structure, parse.c03_structure, parse.tab21],
+            'rules': [parse.tab4, parse.tab5a, codeset.tab6, parse.tab7, parse.c02_structure, parse.c03_structure, parse.tab21],
         }]
     if module == 'print':
         from . import outbuf, outsym
